@@ -9,7 +9,11 @@ two are equal on the common semantic domain, which is applied as a *filter on th
   * every pattern of the pools is start-anchored (re.match == JSON Schema search),
   * `format` / `contentEncoding` are annotations: for types carrying one, strings other than
     well-formed ones are outside the domain,
-  * arrays with duplicate items are outside the domain for types having a set-typed position.
+  * array *uniqueness* is not compared at set-typed positions: `uniqueItems` is removed from the
+    schema of a type with set positions (when the type also writes an explicit `unique` constraint
+    the keyword cannot be attributed, and arrays with duplicates are left out instead); minItems /
+    maxItems ARE compared there, on arrays whose duplicates put len(array) and len(set) on
+    different sides of the bound (schema_common.dup_variants).
 Integers beyond 2**53 are not compared for types with a multipleOf constraint (the validator
 computes multipleOf in floating point: a limitation of the oracle, not of the statement).
 """
@@ -41,6 +45,7 @@ R8 = M.Obj("dataclass", "R8", (M.Fld("p", P.POS), M.Fld("q", M.Ann(P.POS, cons(m
 R9 = M.Obj("dataclass", "R9", (M.Fld("a", P.A), M.Fld("b", M.Opt(P.A), has_default=True, default=None), M.Fld("n", M.Opt(M.Ref("Node")), has_default=True, default=None)))
 
 
+SETF = M.Obj("dataclass", "SetF", (M.Fld("tags", M.Coll("set", STR), cons=cons(max_items=2)), M.Fld("ids", M.Coll("abstractset", INT), cons=cons(min_items=2)), M.Fld("fz", M.Ann(M.Coll("frozenset", INT), cons(min_items=1)), cons=cons(max_items=3))))
 WORM = M.Obj("dataclass", "Worm", (M.Fld("type", M.Lit(("worm",))), M.Fld("length", INT, has_default=True, default=1)))
 
 
@@ -80,6 +85,11 @@ def extra_descriptions(tier: str) -> List[Any]:
         M.Uni((P.TD1, P.NT)),
         M.Coll("list", P.NODE),
         M.Tup((P.A, P.A)),
+        *[M.Ann(M.Coll(k, t), c) for k in ("set", "abstractset", "frozenset") for t in (INT, STR) for c in (cons(min_items=2), cons(max_items=2), cons(min_items=2, max_items=3))],
+        SETF,
+        M.Coll("list", M.Ann(M.Coll("set", INT), cons(max_items=1))),
+        M.Mapp(STR, M.Ann(M.Coll("frozenset", STR), cons(min_items=2))),
+        M.Opt(M.Ann(M.Coll("abstractset", INT), cons(min_items=1, max_items=2))),
         M.Ann(M.Lit((1, 2)), cons(min=2)),
         M.Ann(P.NAME, cons(min_len=2)),
         M.Disc((P.BIRD, WORM), "type"),
@@ -552,7 +562,7 @@ def run(report, tier: str, seed: int, log_name: str = "deserialize_vs_schema"):
         log_name,
         bound=f"{len(pool)} types (pools.type_pool: grammar depth <= {'2' if tier == 'quick' else '3'}; + {len(extra_descriptions(tier))} descriptions for nested constraints / literals in unions / keyword-named fields / readOnly, none_as_undefined; + {len(natives(tier))} real types: standard types with format, registered / dynamic / default / field conversions to standard types, generics, inherited discriminator) x option sets {list(osets)} x per-type datum pools (valid samples, <= {30 if tier == 'quick' else 80} boundary mutants each, {len(P.ATOMS)} atoms, {6 if tier == 'quick' else 40} seeded random values), restricted to the common semantic domain",
     )
-    log.rule("case = (type, option set, datum) with the datum in the common semantic domain (no integer-valued float; no duplicate array items when the type has a set position; only well-formed strings for format types); deserialize(T, d, **opts) accepts  <=>  Draft202012Validator(deserialization_schema(T, **opts)).is_valid(d); distinct by the triple; non-trivial when the datum is a list / dict or the type is not a bare primitive")
+    log.rule("case = (type, option set, datum) with the datum in the common semantic domain (no integer-valued float; at set positions uniqueItems is removed from the schema -- or, when the type also writes a `unique` constraint, arrays with duplicates are left out --, items-count constraints are compared on arrays with duplicates across the bound; only well-formed strings for format types); deserialize(T, d, **opts) accepts  <=>  Draft202012Validator(deserialization_schema(T, **opts)).is_valid(d); distinct by the triple; non-trivial when the datum is a list / dict or the type is not a bare primitive")
     realm = C.make_realm("c06")
     try:
         for td in pool:
@@ -563,6 +573,11 @@ def run(report, tier: str, seed: int, log_name: str = "deserialize_vs_schema"):
                 report.tool_error(f"cannot realise {name}: {e!r}")
                 continue
             set_pos = C.has_set_position(td)
+            # uniqueness is not compared at set positions: when every uniqueItems of the schema can only
+            # come from a set position (no `unique` constraint written anywhere) the keyword is removed
+            # from the schema and ALL data are compared (items-count constraints still count the items
+            # of the JSON array); otherwise arrays with duplicates are left out for this type
+            strip = set_pos and not C.has_explicit_unique(td)
             mult_of = C.any_node(td, lambda t: isinstance(t, M.Ann) and t.cons.get("mult_of") is not None)
             for optname, o in osets.items():
                 if o.get("needs_obj") and not C.has_obj(td):
@@ -580,7 +595,7 @@ def run(report, tier: str, seed: int, log_name: str = "deserialize_vs_schema"):
                     continue
                 try:
                     Draft202012Validator.check_schema(sch)
-                    validator = Draft202012Validator(sch)
+                    validator = Draft202012Validator(C.strip_unique(sch) if strip else sch)
                 except Exception as e:
                     log.fail(f"schema-invalid:{name}:{optname}", f"deserialization_schema({name}, {optname}) is not a valid 2020-12 schema: {str(e)[:200]}", {**case0, "schema": sch}, observed=repr(sch)[:600], functions_involved=["deserialization_schema"])
                     continue
@@ -591,12 +606,12 @@ def run(report, tier: str, seed: int, log_name: str = "deserialize_vs_schema"):
                     continue
                 involved = None
                 diverged = False
-                for d in C.data_pool(td, tier, rng):
+                for d in C.data_pool(td, tier, rng, dups=set_pos, aliaser=common.get("aliaser")):
                     if diverged:
                         break
                     if C.has_intfloat(d):
                         continue
-                    if set_pos and C.has_dup_array(d):
+                    if set_pos and not strip and C.has_dup_array(d):
                         continue
                     if mult_of and C.has_bigint(d):
                         continue  # the validator's multipleOf is computed in floating point
